@@ -225,6 +225,29 @@ def applyActivation (m : Mem) (ctx : Ctx) (b : BlockOp) (v : Int) : Except Strin
     return if b.ofm.signed then toSigned raw 8 else raw
   throw s!"unsupported:activation{act}"
 
+/-- the convolution / depthwise branch of `execBlock`: the OFM values after the activation, in NHWC order. `ifm` is the
+    (possibly upscaled) IFM box of extent `H × W × b.ifm.depth` as an NHWC array. -/
+def convBranch (m : Mem) (ctx : Ctx) (b : BlockOp) (w : Option Weights) (rounding : Rounding) (ifm : Array Int) (H W : Nat) :
+    Except String (List Int) := do
+  let C := b.ifm.depth
+  let od := b.ofm.depth
+  let some w := w | throw "weights of the operation were not supplied"
+  let kh := (b.kernelH - 1) / b.dilationY + 1
+  let kw := (b.kernelW - 1) / b.dilationX + 1
+  -- weights encoded for more output channels than the operation has are accepted only when every channel carries the
+  -- same values (then the assignment of stream positions to channels cannot matter)
+  let chanSize := w.kh * w.kw * w.ic
+  let uniform := (List.range w.oc).all fun o => (List.range chanSize).all fun i => w.vals.getD (o * chanSize + i) 0 == w.vals.getD i 0
+  if w.kh ≠ kh ∨ w.kw ≠ kw ∨ w.oc < od ∨ (w.oc > od ∧ !uniform) then
+    throw s!"supplied weights {w.oc}x{w.kh}x{w.kw}x{w.ic} do not fit kernel {kh}x{kw} depth {od}"
+  if b.kind == .conv ∧ w.ic ≠ C then throw "supplied weights do not fit the IFM depth"
+  if b.kind == .depthwise ∧ (w.ic ≠ 1 ∨ C ≠ od) then throw "depthwise weights / depth mismatch"
+  let recs ← (List.range od).mapM fun c => readScaleRec m b.scales ctx.ncores c
+  let vals := convValues (b.kind == .depthwise) H W C (fun y x c => ifm.getD ((y * W + x) * C + c) 0) kh kw
+    (fun oc ky kx ic => w.at oc ky kx ic) b.strideY b.strideX b.dilationY b.dilationX b.padTop b.padLeft
+    b.ifm.zeroPoint b.ofm.zeroPoint rounding recs.toArray b.ofm.height b.ofm.width od
+  vals.mapM fun v => applyActivation m ctx b (clamp v b.actMin b.actMax)
+
 def execBlock (m : Mem) (ctx : Ctx) (b : BlockOp) (regs : RegFile) (w : Option Weights) : Except String Mem := do
   if b.upscale > 2 then throw "reserved upscale mode"
   if b.upscale ≠ 0 ∧ b.kind == .elementwise then throw "unsupported:upscale-elementwise"
@@ -262,23 +285,7 @@ def execBlock (m : Mem) (ctx : Ctx) (b : BlockOp) (regs : RegFile) (w : Option W
   let mut out : Array Int := Array.mkEmpty (oh * ow * od)
   match b.kind with
   | .conv | .depthwise =>
-    let some w := w | throw "weights of the operation were not supplied"
-    let kh := (b.kernelH - 1) / b.dilationY + 1
-    let kw := (b.kernelW - 1) / b.dilationX + 1
-    -- weights encoded for more output channels than the operation has are accepted only when every channel carries the
-    -- same values (then the assignment of stream positions to channels cannot matter)
-    let chanSize := w.kh * w.kw * w.ic
-    let uniform := (List.range w.oc).all fun o => (List.range chanSize).all fun i => w.vals.getD (o * chanSize + i) 0 == w.vals.getD i 0
-    if w.kh ≠ kh ∨ w.kw ≠ kw ∨ w.oc < od ∨ (w.oc > od ∧ !uniform) then
-      throw s!"supplied weights {w.oc}x{w.kh}x{w.kw}x{w.ic} do not fit kernel {kh}x{kw} depth {od}"
-    if b.kind == .conv ∧ w.ic ≠ C then throw "supplied weights do not fit the IFM depth"
-    if b.kind == .depthwise ∧ (w.ic ≠ 1 ∨ C ≠ od) then throw "depthwise weights / depth mismatch"
-    let recs ← (List.range od).mapM fun c => readScaleRec m b.scales ctx.ncores c
-    let recs := recs.toArray
-    let vals := convValues (b.kind == .depthwise) H W C ifmAt kh kw (fun oc ky kx ic => w.at oc ky kx ic)
-      b.strideY b.strideX b.dilationY b.dilationX b.padTop b.padLeft zp ozp rounding recs oh ow od
-    for v in vals do
-      out := out.push (← finish v)
+    out := (← convBranch m ctx b w rounding ifm H W).toArray
   | .pool =>
     if b.subOp > 1 then throw "unsupported:reduce_sum"
     if b.dilationX ≠ 1 ∨ b.dilationY ≠ 1 then throw "pooling with dilation"
